@@ -1848,6 +1848,20 @@ func (m *repoManager) newVersion(parent dvid.UUID, note string, branchname strin
 		r.RUnlock()
 	}
 
+	// A caller-assigned UUID must be non-empty and must not name an existing version:
+	// newUUID would silently overwrite the UUID -> version mapping of the older node.
+	if assign != nil {
+		if *assign == dvid.NilUUID {
+			return dvid.NilUUID, fmt.Errorf("cannot assign an empty UUID to a new version")
+		}
+		m.idMutex.RLock()
+		_, exists := m.uuidToVersion[*assign]
+		m.idMutex.RUnlock()
+		if exists {
+			return dvid.NilUUID, ErrExistingUUID
+		}
+	}
+
 	// Add the child node.  Since it's new and unavailable, no need to lock it.
 	childUUID, childV, err := m.newUUID(assign)
 	if err != nil {
